@@ -85,8 +85,10 @@ def run(ctx):
     with open(os.path.join(sdir, "cases.ndjson"), "w") as f:
         for c in cases:
             f.write(json.dumps(c) + "\n")
-    behs = ctx.tlc_gen("ProvideWalk", "GenProvideWalk.tla", "GenProvideWalk.cfg" if q else "GenProvideWalkT.cfg",
-                       timeout=3600, workers=4)
+    gcfg = "GenProvideWalk.cfg" if q else "GenProvideWalkT.cfg"
+    if os.environ.get("VERIF_FAST_G"):                 # mutation self-tests only: a reduced exhaustive family
+        gcfg = "GenProvideWalkS.cfg"
+    behs = ctx.tlc_gen("ProvideWalk", "GenProvideWalk.tla", gcfg, timeout=3600, workers=4)
     keys = {json.dumps(b["cfg"], sort_keys=True) for b in behs}
     lost = [c for c in cases if json.dumps(c, sort_keys=True) not in keys]
     if lost:
